@@ -417,7 +417,10 @@ impl<'tcx> M<'tcx> {
                 V::Str(s) => self.events.push(Event::Fmt(s.clone())),
                 o => {
                     let mut l = vec![];
-                    flatten(o, &mut l);
+                    match o {
+                        V::Obj("fmtargs", k) => l.extend(k.iter().cloned()),
+                        o => flatten(o, &mut l),
+                    }
                     let mut pieces = vec![];
                     for x in l {
                         match x {
@@ -439,6 +442,9 @@ impl<'tcx> M<'tcx> {
                 flatten(&dv, &mut l);
             }
             let keep: Vec<V<'tcx>> = l.into_iter().filter(|x| matches!(x, V::Str(_) | V::T(_))).collect();
+            if n.starts_with("std::fmt::Arguments") && is_opaque_leaf(tcx, ret_ty) {
+                return Ok(Some(if keep.len() == 1 && matches!(keep[0], V::Str(_)) { keep.into_iter().next().unwrap() } else { V::Obj("fmtargs", keep) }));
+            }
             return Ok(Some(if keep.len() == 1 { keep.into_iter().next().unwrap() } else { V::Agg(keep) }));
         }
         // Display / Debug etc. of scalars and tokens: a formatted leaf
